@@ -280,6 +280,38 @@ func ruleEncInherit(c *eng.Ctx) {
 		}
 		return true
 	})
+	// once a previous head is known to be encrypted the function must return its key or an error:
+	// it may not go on (continue / fall out of the loop) and conclude "not encrypted"
+	ast.Inspect(loop.Body, func(m ast.Node) bool {
+		is, ok := m.(*ast.IfStmt)
+		if !ok {
+			return true
+		}
+		be, ok := ast.Unparen(is.Cond).(*ast.BinaryExpr)
+		if !ok || be.Op != token.NEQ || !isFieldNamed(info, be.X, "Encryption") {
+			return true
+		}
+		bflow := eng.NewFlow(info, is.Body)
+		outs, _ := bflow.Paths(eng.PathSpec{})
+		bad := ""
+		for _, o := range outs {
+			switch o.Kind {
+			case "return":
+				if o.Ret != nil && len(o.Ret.Results) == 3 {
+					t0, ok0 := info.Types[o.Ret.Results[0]]
+					t2, ok2 := info.Types[o.Ret.Results[2]]
+					if ok0 && t0.IsNil() && ok2 && t2.IsNil() {
+						bad = "returns (nil, _, nil) at " + c.P.Rel(o.Ret.Pos())
+					}
+				}
+			default:
+				bad = "leaves the branch without returning (continue / fall through)"
+			}
+		}
+		c.Check(bad == "" && len(outs) > 0, rule, "determineBlockEncryption:encrypted-head⇒key-or-error", is.Pos(), "an encrypted previous head yields its key or an error",
+			"on the branch where a previous head carries an encryption link the function "+bad+": the update is then treated as unencrypted and stored in clear")
+		return true
+	})
 	c.Check(keyOK, rule, "determineBlockEncryption:inherits-key", loop.Pos(), "the previous head's key is reused", "the inherited encryption block does not take its Key from the previous head's encryption block")
 }
 
